@@ -207,6 +207,8 @@ pub fn legacy_ok(p: &P) -> bool {
         P::Done | P::Event(_) | P::Notify(_) | P::Req(_) | P::Stream(_) | P::ReqReq(..) | P::Join(..)
         | P::Select(..) | P::Burst(..) | P::SpawnAfter(..) | P::HandOff(..) => true,
         P::Trigger(_, q) => legacy_ok(q),
+        // events of the sub-program go through `Capability::map_event` (child-app composition)
+        P::MapEvent(q) => legacy_ok(q),
         P::And(a, b) => legacy_ok(a) && legacy_ok(b),
         P::All(v) => v.iter().all(legacy_ok),
         _ => false,
@@ -364,6 +366,10 @@ pub fn run_legacy(p: &P, caps: &Caps) {
                     }
                 });
             });
+        }
+        P::MapEvent(q) => {
+            let mapped = Caps { a: caps.a.map_event(Event::tagged), b: caps.b.map_event(Event::tagged) };
+            run_legacy(&q, &mapped);
         }
         P::And(x, y) => {
             run_legacy(&x, caps);
